@@ -19,7 +19,7 @@ SIGNAL_STRATS = ["peak_load_window", "flex_window", "balanced_market"]
 # ---------------------------------------------------------------- A: no charging in discouraged periods
 def check_signal_case(case):
     st = Counter()
-    js = svc.finish(case)
+    js = case["js"] if case.get("prebuilt") else svc.finish(case)
     if js is None:
         st["infeasible-generated"] += 1
         return [], st
@@ -42,7 +42,19 @@ def check_signal_case(case):
         st["discouraged-steps"] += sum(1 for i in range(a, min(d, len(pat))) if not pat[i])
         e = sum(x for _, x in bad) * res["interval"].total_seconds() / 3600
         if bad and e > 1e-4 * js["components"]["vehicle_types"]["vt"]["capacity"]:
-            v.append(("C11/%s/charged-in-discouraged" % strategy,
+            sub = ""
+            if len(js["components"]["vehicles"]) == 1:
+                # what happened on the encouraged steps AFTER the last one with restricted head room: raised to the full
+                # available power (the plan was corrected, but too late) or left under-used
+                lim_ = svc.limit_series(js, res["n"] + 1)
+                csmax = js["components"]["charging_stations"][p["cs"]]["max_power"]
+                enc = [i for i in range(a, min(d, len(pat))) if pat[i]]
+                restricted = [i for i in enc if lim_[i] < csmax - 1e-9]
+                if restricted:
+                    later = [i for i in enc if i > restricted[-1]]
+                    under = [i for i in later if res["charge"][i].get(p["cs"], 0) < min(csmax, lim_[i]) - 1e-3]
+                    sub = "/late-underused" if (under or not later) and later else "/late-saturated"
+            v.append(("C11/%s/charged-in-discouraged%s" % (strategy, sub),
                       "%s draws %.4f kWh in %d discouraged step(s) (first: step %d, %.3f kW) although the encouraged steps of its standing period "
                       "[%d,%d) offer >= 1.3x the needed charging time; interval %s, departure offset %s"
                       % (p["vid"], e, len(bad), bad[0][0], bad[0][1], a, d, js["scenario"]["interval"], case["dep_offset"])))
@@ -51,6 +63,52 @@ def check_signal_case(case):
                       "%s leaves with SoC %.6f < desired %.4f although the encouraged steps alone offer >= 1.3x the needed time; standing [%d,%d)"
                       % (p["vid"], p["dep_soc"], p["desired"], a, d)))
     return v, st
+
+
+def gen_plw_directed(rng):
+    """peak_load_window: two peak windows inside the standing time, a block of high building load on outside steps between /
+    after them (little head room there), constant charging curve, one vehicle; the outside steps still offer >= 1.3x"""
+    import datetime
+    interval = rng.choice([15, 15, 30])
+    dt = datetime.timedelta(minutes=interval)
+    n = rng.choice([24, 32])
+    start = svc.T0
+    w1 = rng.randrange(4, n // 3)
+    w1e = w1 + rng.choice([2, 4])
+    w2 = rng.randrange(w1e + 4, n - 3)
+    w2e = min(n - 1, w2 + rng.choice([2, 3]))
+    pat = [not (w1 <= i < w1e or w2 <= i < w2e) for i in range(n)]
+    b0 = rng.randrange(w1e, w2)
+    b1 = rng.randrange(b0 + 1, w2 + 1)
+    gc_max = rng.choice([20, 30])
+    hi = gc_max - rng.choice([2, 4])
+    fl = [hi if b0 <= i < b1 else 2.0 for i in range(n + 2)]
+    P = rng.choice([11, 22])
+    cap = rng.choice([50, 76])
+    soc0 = rng.choice([0.2, 0.4])
+    # needed energy ~ half of what the outside steps offer
+    h = interval / 60
+    avail = sum(min(P, gc_max - fl[i]) * h for i in range(n) if pat[i]) * 0.95
+    desired = round(min(0.95, soc0 + avail / cap / rng.choice([1.5, 2.0, 2.5])), 3)
+
+    def hm(i):
+        return (start + dt * i).strftime("%H:%M")
+    js = {"scenario": {"start_time": svc.iso(start), "interval": interval, "n_intervals": n + 2},
+          "components": {"vehicle_types": {"vt": {"name": "vt", "capacity": cap, "mileage": 20, "charging_curve": [[0, P], [1, P]],
+                                                  "min_charging_power": 0, "v2g": False}},
+                         "vehicles": {"v0": {"vehicle_type": "vt", "soc": soc0, "desired_soc": desired, "connected_charging_station": "cs0_deps",
+                                             "estimated_time_of_departure": svc.iso(start + dt * n)}},
+                         "charging_stations": {"cs0_deps": {"max_power": P, "min_power": 0, "parent": "GC1"}},
+                         "batteries": {}, "photovoltaics": {},
+                         "grid_connectors": {"GC1": {"max_power": gc_max, "voltage_level": "MV", "grid_operator": "op",
+                                                     "cost": {"type": "fixed", "value": 0.3}}}},
+          "events": {"grid_operator_signals": [], "local_generation": {},
+                     "fixed_load": {"building": {"start_time": svc.iso(start), "step_duration_s": interval * 60, "grid_connector_id": "GC1", "values": fl}},
+                     "vehicle_events": [{"signal_time": svc.iso(start + dt * n), "start_time": svc.iso(start + dt * n), "vehicle_id": "v0",
+                                         "event_type": "departure", "update": {"estimated_time_of_arrival": svc.iso(start + dt * (n + 100))}}]}}
+    tw = {"op": {"all": {"start": "2021-01-01", "end": "2021-12-31", "windows": {"MV": [[hm(w1), hm(w1e)], [hm(w2), hm(w2e)]]}}}}
+    return {"js": js, "pattern": pat, "strategy": "peak_load_window", "extra": {"time_windows": tw}, "signal_case": True,
+            "dep_offset": 0, "seed": 0, "prebuilt": True}
 
 
 # ---------------------------------------------------------------- B: balanced_market never pays more than greedy
@@ -200,6 +258,13 @@ def run(tier):
                     rep.cov["samples"].append({"strategy": strategy, "scenario": svc.finish(case), "pattern": case["pattern"], "stats": dict(st)})
                 for cls, what in viol:
                     rep.add_violation(cls, what, {"unit": "signal", "case": case})
+        for i in range(max(6, n // 2)):
+            case = gen_plw_directed(rng)
+            viol, st = check_signal_case(case)
+            for k, c in st.items():
+                dist["plw-directed/%s" % k] += c
+            for cls, what in viol:
+                rep.add_violation(cls, what, {"unit": "signal", "case": case})
         for i in range(n):
             case = svc.gen(rng, "balanced_market", signal_case=rng.random() < 0.5)
             viol, st = check_cost_case(case)
